@@ -21,6 +21,26 @@ pub fn read_f(r: &mut Rd) -> f64 {
 pub fn read_fs(r: &mut Rd, n: usize) -> Vec<f64> {
     (0..n).map(|_| read_f(r)).collect()
 }
+/// HOW the encoded numbers are constructed (environment variable RL_PRESENT, read once):
+///   0 (default)  Dual::try_new / Dual2::try_new
+///   1            T::try_new_from(&other, ..) where `other` lists the same names ROTATED by one place (two or more names) -
+///                the sibling constructor behind the Python `vars_from`; by name it is the same number
+pub fn present() -> u8 {
+    static P: std::sync::OnceLock<u8> = std::sync::OnceLock::new();
+    *P.get_or_init(|| std::env::var("RL_PRESENT").ok().and_then(|s| s.parse().ok()).unwrap_or(0))
+}
+fn rotated(vars: &[String]) -> Vec<String> {
+    let mut seen: Vec<String> = vec![];
+    for v in vars {
+        if !seen.contains(v) {
+            seen.push(v.clone());
+        }
+    }
+    if seen.len() >= 2 {
+        seen.rotate_left(1);
+    }
+    seen
+}
 /// well-formed by construction: panics (harness bug) if the encoded shapes are inconsistent
 pub fn read_dual(r: &mut Rd) -> Dual {
     let vars = read_names(r);
@@ -29,6 +49,10 @@ pub fn read_dual(r: &mut Rd) -> Dual {
     let du = read_fs(r, n);
     if n == 0 {
         return Dual::new(re, vec![]);
+    }
+    if present() == 1 {
+        let other = Dual::new(0.0, rotated(&vars));
+        return Dual::try_new_from(&other, re, vars, du).expect("read_dual (try_new_from)");
     }
     Dual::try_new(re, vars, du).expect("read_dual")
 }
@@ -40,6 +64,10 @@ pub fn read_dual2(r: &mut Rd) -> Dual2 {
     let dd = read_fs(r, n * n);
     if n == 0 {
         return Dual2::new(re, vec![]);
+    }
+    if present() == 1 {
+        let other = Dual2::new(0.0, rotated(&vars));
+        return Dual2::try_new_from(&other, re, vars, du, dd).expect("read_dual2 (try_new_from)");
     }
     // try_new treats an empty/all-absent dual2 as zeros; pass the explicit array
     Dual2::try_new(re, vars, du, dd).expect("read_dual2")
